@@ -97,8 +97,7 @@ def check_inject(parts, target, run_last, replace, via_stdin, scratch, subproces
     case = {"op": "inject", "parts": [p.hex() for p in parts], "target": target, "run_last": run_last,
             "replace": replace, "stdin": via_stdin, "subprocess": subprocess_mode}  # fmt: skip
     try:
-        if split_stack(data) != list(parts):
-            return None
+        split_stack(data)  # only to learn whether fickling can parse these inputs at all
         want = lib_inject(parts[target], run_last, replace) if target < len(parts) else None
     except Exception:  # noqa: BLE001 - fickling cannot model these inputs: outside the domain
         return None
@@ -233,7 +232,9 @@ def _parts():
 
     eff = st.sampled_from(["e1", "e2"]).map(verif_sink.Effect)
     v = st.one_of(values.plain_values(max_leaves=5), values.instance_values(), eff)
-    return st.tuples(v, st.sampled_from(range(6))).map(lambda t: _dumps(*t))
+    small = st.tuples(v, st.sampled_from(range(6))).map(lambda t: _dumps(*t))
+    big = st.tuples(values.multi_frame_values(), st.sampled_from([4, 5])).map(lambda t: _dumps(*t))
+    return st.one_of(*([small] * 9), big)
 
 
 def _dumps(v, proto):
